@@ -58,6 +58,7 @@ theorem server_table_flows :
       ["signalsMutex.RLock", "range signals {", "if user.signalID == signalID {", "call append", "}", "}",
        "signalsMutex.RUnlock", "range {", "call o.replyEvent"] := ⟨rfl, rfl, rfl⟩
 
+
 /-- all the proxies of a `Cache` use one client (`C.twice = false`: one registration per connection) -/
 theorem cache_shares_its_client :
     Gen.Signals.cacheProxyFlow.drop 3 = ["call s.sharedClient", "call NewProxy", "return NewProxy(s.sharedClient(), meta, service…, nil"] ∧
